@@ -243,7 +243,8 @@ static void t_avail(void* context, void* engine_context, llb_task_interface_t ti
   g_pend[g_npend++] = p;
   pthread_mutex_unlock(&g_pm);
 }
-static void t_destroy(void* context) { free(context); }
+static long g_tasks_created = 0, g_tasks_destroyed = 0, g_engine_ctx_destroyed = 0;
+static void t_destroy(void* context) { __sync_fetch_and_add(&g_tasks_destroyed, 1); free(context); }
 
 /* ---- rules */
 static int g_rulectx[MAXK + 1];                       /* rule context: pointer to the key number (index MAXK: unknown key) */
@@ -252,7 +253,7 @@ static llb_task_t* r_create(void* context, void* engine_context) {
   int k = *(int*)context;
   check_ctx(engine_context, "create_task");
   ev("create %d", k);
-  TaskCtx* t = calloc(1, sizeof *t); t->k = k; t->d = *def(k);
+  TaskCtx* t = calloc(1, sizeof *t); t->k = k; t->d = *def(k); g_tasks_created++;
   llb_task_delegate_t d; memset(&d, 0, sizeof d);
   d.context = t; d.destroy_context = t_destroy; d.start = t_start; d.provide_value = t_provide; d.inputs_available = t_avail;
   return llb_task_create(d);
@@ -314,13 +315,21 @@ static int unhex(const char* s, unsigned char** out, size_t* n) {
 
 static llb_buildengine_t* g_engine = NULL;
 static char g_dbpath[4096];
+static void d_destroy(void* context) { (void)context; g_engine_ctx_destroyed++; }
 static llb_buildengine_t* make_engine(void* ctx) {
   llb_buildengine_delegate_t d; memset(&d, 0, sizeof d);
-  d.context = ctx; d.lookup_rule = d_lookup; d.cycle_detected = d_cycle; d.error = d_error;
+  d.context = ctx; d.destroy_context = d_destroy; d.lookup_rule = d_lookup; d.cycle_detected = d_cycle; d.error = d_error;
   return llb_buildengine_create(d);
 }
+/* documented lifetimes: the engine delegate's destroy_context runs once on engine destruction, each task delegate's on task destruction */
+static void destroy_engine(llb_buildengine_t* e) {
+  long before = g_engine_ctx_destroyed;
+  llb_buildengine_destroy(e);
+  if (g_engine_ctx_destroyed != before + 1) printf("BAD-ENGINE-CONTEXT-LIFETIME destroy_context ran %ld times\n", g_engine_ctx_destroyed - before);
+  if (g_tasks_created != g_tasks_destroyed) printf("BAD-TASK-CONTEXT-LIFETIME created %ld destroyed %ld\n", g_tasks_created, g_tasks_destroyed);
+}
 static void newengine(int attach, uint32_t schema) {
-  if (g_engine) llb_buildengine_destroy(g_engine);
+  if (g_engine) destroy_engine(g_engine);
   memcpy(g_defs, g_pending, sizeof g_defs);
   g_cur_ctx = &g_ctx_magic_a;
   g_engine = make_engine(g_cur_ctx);
@@ -395,7 +404,7 @@ int main(int argc, char** argv) {
       char b[32], s[48]; llb_data_t kd = kname(atoi(t[1]), b), res;
       llb_buildengine_build(e2, &kd, &res); vs(res.data, res.length, s);
       g_in_build = 0; g_sched = ss;
-      llb_buildengine_destroy(e2); g_cur_ctx = sctx; g_quiet = 0;
+      destroy_engine(e2); g_cur_ctx = sctx; g_quiet = 0;
       printf("fresh %s %s\n", t[1], s);
       for (int i = 0; i < MAXK; i++) if (g_hasfresh[i]) printf("freshval %d %s\n", i, g_freshval[i]);
       memcpy(g_defs, g_saved, sizeof g_defs);
@@ -426,7 +435,7 @@ int main(int argc, char** argv) {
       fflush(stdout);
     }
   }
-  if (g_engine) llb_buildengine_destroy(g_engine);
+  if (g_engine) destroy_engine(g_engine);
   fflush(stdout);
   return 0;
 }
